@@ -186,6 +186,45 @@ def kv_of(fmd):
     return [(eb(x.key), eb(x.value)) for x in (fmd.key_value_metadata or [])]
 
 
+LATKEY = b"lat-pad"
+
+
+def lattice_plans(quick):
+    """UPDATE-path footer lattice: (kind, [F1, F2]) - the footer is brought to exactly F1 bytes by one update, then to F2 by the next, then
+    the payload is removed again; F around 2**15, 2**16, 2**17 (-9..+9: the 8-byte trailer on either side of a window of that size)"""
+    pairs = [(-9, 1), (-8, 8), (-7, 0), (-6, 2), (-5, 9), (-4, 3), (-3, 7), (-2, 4), (-1, 5), (6, -8)]
+    if not quick:
+        pairs += [(a, b) for a in range(-9, 10, 3) for b in range(-9, 10, 4)]
+    out = []
+    for i, t in enumerate([2 ** 16, 2 ** 15, 2 ** 17] + ([] if quick else [2 ** 14, 2 ** 18])):
+        for j, (a, b) in enumerate(pairs):
+            out.append((["data", "_metadata", "data2"][(i + j) % 3], [t + a, t + b]))
+    return out
+
+
+def pad_update_for(path, is_md, F):
+    """{LATKEY: 'p' * n} with n such that the footer has exactly F bytes after this update (None when no n gives F)"""
+    from fastparquet.cencoding import from_buffer
+    from fastparquet import parquet_thrift
+    b = open(path, "rb").read()
+    loc = 4 if is_md else len(b) - 8 - int.from_bytes(b[-8:-4], "little")
+    fmd = from_buffer(b[loc:], "FileMetaData")
+    kvs = [kv for kv in (fmd.key_value_metadata or []) if eb(kv.key) != LATKEY]
+
+    def ser(n):
+        fmd.key_value_metadata = kvs + [parquet_thrift.KeyValue(key=LATKEY, value=b"p" * n)]
+        return len(fmd.to_bytes())
+    n = F - ser(1) + 1
+    for _ in range(5):
+        if n < 1:
+            return None
+        got = ser(n)
+        if got == F:
+            return {LATKEY.decode(): "p" * n}
+        n += F - got
+    return None
+
+
 def translate_kv(ctx):
     """regenerated-text obligations of C16 (each translator fails closed on its own):
     kv2coq      util.update_custom_metadata  -> GenKV.v, coq/genproofs/GenKVProofs.v (loop = faithful step; WHOLE function = update_kvo)
@@ -261,31 +300,39 @@ def run(ctx):
                 continue
             seen.add(eb(k))
             old.append((eb(k), eb(v)))
+        # ONE to THREE update dicts applied to the SAME thrift object with no serialisation in between (what a caller does through a
+        # handle before one footer write): later dicts name keys that earlier ones added / replaced, given as str or as bytes
+        us, named = [], []
+        for j in range(rng.choice([1, 1, 2, 3])):
+            u = {}
+            for _ in range(rng.choice([0, 1, 2, 4]) if j == 0 else rng.choice([1, 2, 3])):
+                k, v = _kv_vals(rng)
+                pool_k = [x for x, _ in old] + named
+                if pool_k and rng.random() < (0.5 if j == 0 else 0.75):
+                    k = rng.choice(pool_k)
+                    if rng.random() < 0.5:
+                        k = _maybe_str(k)
+                if any(eb(k) == eb(k2) for k2 in u):
+                    continue
+                u[k] = None if rng.random() < 0.35 else v
+            us.append(u)
+            named += [eb(k) for k, v in u.items() if v is not None]
         u = {}
-        for _ in range(rng.choice([0, 1, 2, 4])):
-            k, v = _kv_vals(rng)
-            if old and rng.random() < 0.5:
-                k = rng.choice(old)[0]
-                if rng.random() < 0.5:
-                    try:
-                        k = k.decode("utf-8")
-                    except UnicodeDecodeError:
-                        pass
-            if any(eb(k) == eb(k2) for k2 in u):
-                continue
-            u[k] = None if rng.random() < 0.35 else v
         fmd = parquet_thrift.FileMetaData(
             key_value_metadata=[parquet_thrift.KeyValue(key=k, value=v) for k, v in old] if (old or rng.random() < 0.5) else None)
         raised = None
         try:
-            update_custom_metadata(fmd, u)
+            for uj in us:
+                update_custom_metadata(fmd, dict(uj))
             impl = [[k, v] for k, v in kv_of(fmd)]
         except Exception as e:       # noqa  (a legal update must not raise: reported below with the concrete case)
             raised = "%s: %s" % (type(e).__name__, e)
             impl = [[b"<raised>", raised.encode()]]
-        cmds.append(("update_kv", [[k, v] for k, v in old], [[eb(k), [] if v is None else [eb(v)]] for k, v in u.items()]))
+        flat = [(k, v) for uj in us for k, v in uj.items()]        # update_kv folds over the list: a sequence of dicts is their concatenation
+        cmds.append(("update_kv", [[k, v] for k, v in old], [[eb(k), [] if v is None else [eb(v)]] for k, v in flat]))
         metas.append(({"old": [[k.hex(), v.hex()] for k, v in old],
-                       "update": [[eb(k).hex(), None if v is None else eb(v).hex()] for k, v in u.items()]}, impl, len(u) == 0))
+                       "update": [[eb(k).hex(), None if v is None else eb(v).hex()] for k, v in flat],
+                       "updates_typed": [enc_dict(uj) for uj in us]}, impl, len(flat) == 0))
     outs = pq.batch(cmds)
     for (case, impl, triv), mo in zip(metas, outs):
         ctx.case({"corr": "update_kv", **case}, trivial=triv)
@@ -293,23 +340,29 @@ def run(ctx):
             ctx.fail({"component": "update_custom_metadata", "op": "update_kv", "what": "raised"}, case,
                      "update_custom_metadata raised on a legal update: %s" % impl[0][1].decode("utf-8", "replace"))
         ctx.count("update_kv.nupdates", len(case["update"]))
+        ctx.count("update_kv.dicts_on_one_object", len(case["updates_typed"]))
         agree = ctx.correspondence("update_kv ~ util.update_custom_metadata", case, [[a.hex(), b.hex()] for a, b in mo],
                                    [[a.hex(), b.hex()] for a, b in impl])
         # property oracle on the same case (distinct old keys only: the statement is about dicts)
         oldk = [k for k, _ in case["old"]]
         if len(set(oldk)) == len(oldk):
-            want = spec_update({bytes.fromhex(k): bytes.fromhex(v) for k, v in case["old"]},
-                               {bytes.fromhex(k): (None if v is None else bytes.fromhex(v)) for k, v in case["update"]})
+            want = {bytes.fromhex(k): bytes.fromhex(v) for k, v in case["old"]}
+            for uj in case["updates_typed"]:
+                want = spec_update(want, dec_dict(uj))
             got = {k: v for k, v in ((bytes(a), bytes(b)) for a, b in impl)}
             if got != want or len(impl) != len(got):
                 ctx.fail({"component": "update_custom_metadata", "op": "update_kv"}, case,
                          "resulting key-values differ from dict-update semantics: got %r want %r" % (got, want))
 
     # ---- correspondence B + oracle: histories on real files ----------------------------------
-    for h in range(n_hist):
+    plans = lattice_plans(ctx.quick())
+    for h in range(n_hist + len(plans)):
         case = {"history": h}
+        lat = plans[h - n_hist] if h >= n_hist else None
         try:
             kind = rng.choice(["data", "data", "data2", "_metadata"])
+            if lat:
+                kind = lat[0]
             d0 = {}
             for _ in range(rng.choice([0, 1, 2, 3])):
                 k, v = _kv_vals(rng, big=(rng.random() < 0.03))
@@ -317,6 +370,8 @@ def run(ctx):
                     continue
                 d0[k] = v
             nrows = rng.choice([1, 5, 50])
+            if lat:
+                nrows = 5
             df = pd.DataFrame({"x": np.arange(nrows, dtype="int64"), "s": ["r%d" % i for i in range(nrows)]})
             root = os.path.join(ctx.scratch, "h%d" % h)
             if kind == "_metadata":
@@ -340,7 +395,7 @@ def run(ctx):
             # a footer as another writer may leave it (legal in the IDL): the SAME key several times, KeyValue entries WITHOUT
             # value, binary keys / values in every combination with text.  Updates never name the repeated key, so every one of
             # its entries must survive, in order; value-less and binary entries ARE named by updates (removal, replacement)
-            foreign = gen_foreign(rng) if rng.random() < 0.75 else None
+            foreign = gen_foreign(rng) if (rng.random() < 0.75 and not lat) else None
             if foreign:
                 case["replay_data"]["foreign"] = foreign
                 case["foreign_entries"] = foreign
@@ -355,6 +410,10 @@ def run(ctx):
             schema0, rgs0 = pf.fmd.schema, pf.fmd.row_groups
             df0 = ParquetFile(root if kind == "_metadata" else path).to_pandas()
             nupd = rng.choice([1, 2, 3, 5])
+            if lat:
+                nupd = 3
+                case["footer_lattice"] = lat[1]
+                case["replay_data"]["lattice"] = lat[1]
             trivial_hist = True
             for step in range(nupd):
                 before = open(path, "rb").read()
@@ -367,7 +426,14 @@ def run(ctx):
                 if valueless and rng.random() < 0.5:
                     mode = rng.choice(["remove-valueless", "remove-valueless", "set-valueless"])
                 ctx.count("update_mode", mode)
-                if mode == "empty":
+                lat_u = None
+                if lat:
+                    lat_u = pad_update_for(path, kind == "_metadata", lat[1][step]) if step < 2 else {LATKEY.decode(): None}
+                    ctx.count("footer_lattice.step", "no-payload-length" if lat_u is None else ("to F" if step < 2 else "remove"))
+                if lat_u is not None:
+                    u = dict(lat_u)
+                    mode = "lattice"
+                elif mode == "empty":
                     pass
                 elif mode == "remove-valueless":
                     # ONLY removals of entries that have no value (and of absent keys): the footer must lose exactly these
@@ -473,13 +539,18 @@ def run(ctx):
                 except Exception as e:           # noqa
                     err = "%s: %s" % (type(e).__name__, e)
                 after = open(path, "rb").read()
-                m_loc = pq.call("footer_loc", is_md, before)
-                m_after = pq.call("rewrite_footer", 1, before, loc, new_footer)
                 cc = {"kind": kind, "step": step, "delta": delta, "before_len": len(before), "loc": loc,
                       "update": case["updates"][-1]}
-                ctx.correspondence("footer_loc ~ where update_file_custom_metadata finds the footer", cc, m_loc, [loc])
-                ctx.correspondence("rewrite_footer(truncate) ~ bytes left by update_file_custom_metadata", cc,
-                                   sha_len(m_after), sha_len(after))
+                # the extracted model takes ~1.5 s per MB of file: on the big files of the footer lattice it runs for the 2**15 lattice and
+                # for every fourth history of the larger ones in the quick tier (the oracle below runs on all)
+                if (not lat) or (not ctx.quick()) or max(len(before), len(after)) < 50000 or h % 4 == 0:
+                    m_loc = pq.call("footer_loc", is_md, before)
+                    m_after = pq.call("rewrite_footer", 1, before, loc, new_footer)
+                    ctx.correspondence("footer_loc ~ where update_file_custom_metadata finds the footer", cc, m_loc, [loc])
+                    ctx.correspondence("rewrite_footer(truncate) ~ bytes left by update_file_custom_metadata", cc,
+                                       sha_len(m_after), sha_len(after))
+                if lat:
+                    ctx.count("footer_lattice.footer_bytes_before->after", "%d->%d" % (old_footer_len, len(new_footer)))
                 # ---- the property itself on this step
                 cls = {"component": "update_file_custom_metadata", "op": "update_kv", "file_kind": kind,
                        "footer_delta": delta}
@@ -529,6 +600,49 @@ def run(ctx):
             import traceback
             ctx.fail({"component": "history", "op": "raised", "what": type(e).__name__}, case,
                      "a legal history raised %s: %s\n%s" % (type(e).__name__, e, traceback.format_exc()[-1200:]))
+    # ---- histories on ONE HANDLE: two or more update_custom_metadata(pf, ...) calls with no footer write in between, then the handle
+    # writes its metadata (_write_common_metadata, or an append through the handle); later dicts name keys the earlier ones added ----
+    n_hs = 24 if ctx.quick() else 240
+    for h in range(n_hs):
+        case = {"handle_history": h}
+        try:
+            d0 = {}
+            for _ in range(rng.choice([0, 1, 2])):
+                k, v = _kv_vals(rng)
+                if not any(eb(k) == eb(k2) for k2 in d0):
+                    d0[k] = v
+            nrows = rng.choice([2, 6])
+            df = pd.DataFrame({"x": np.arange(nrows, dtype="int64"), "s": ["r%d" % i for i in range(nrows)]})
+            root = os.path.join(ctx.scratch, "hs%d" % h)
+            write(root, df, file_scheme="hive", custom_metadata=dict(d0) or None, row_group_offsets=[0, nrows // 2])
+            us, named = [], [eb(k) for k in d0]
+            for j in range(rng.choice([2, 2, 3])):
+                u = {}
+                for _ in range(rng.choice([1, 2, 3])):
+                    k, v = _kv_vals(rng)
+                    if named and rng.random() < 0.7:
+                        k = rng.choice(named)
+                        if rng.random() < 0.5:
+                            k = _maybe_str(k)
+                    elif rng.random() < 0.7:
+                        k = _maybe_str(eb(k))          # new keys mostly as text
+                    if any(eb(k) == eb(k2) for k2 in u) or eb(k) == b"pandas":
+                        continue
+                    u[k] = None if rng.random() < 0.4 else v
+                us.append(u)
+                named += [eb(k) for k, v in u.items() if v is not None]
+            finish = rng.choice(["_write_common_metadata", "append"])
+            case = {"stage": "handle-history", "nrows": nrows, "initial": enc_dict(d0), "updates": [enc_dict(u) for u in us], "finish": finish,
+                    "shown": [[[repr(k), None if v is None else repr(v)[:30]] for k, v in u.items()] for u in us]}
+            ctx.case(case)
+            ctx.count("handle_history.finish", finish)
+            problems = handle_history(root, df, us, finish)
+            if problems:
+                ctx.fail({"component": "update_custom_metadata(handle)", "op": "sequence-on-one-handle", "finish": finish}, case, "; ".join(problems))
+        except Exception as e:      # noqa
+            import traceback
+            ctx.fail({"component": "handle-history", "op": "raised", "what": type(e).__name__}, case,
+                     "a legal handle history raised %s: %s\n%s" % (type(e).__name__, e, traceback.format_exc()[-1200:]))
     pq.close()
     ctx.extra["footer_deltas_seen"] = sorted(deltas_seen)
     small = set(range(-8, 9))
@@ -547,6 +661,38 @@ def strict_view_ok(pf, raw):
     except Exception as e:      # noqa
         print("reading key_value_metadata raised %s: %s" % (type(e).__name__, e))
         return False
+
+
+def handle_history(root, df, us, finish):
+    """several updates through ONE ParquetFile handle, then the handle writes the footer; -> list of problems"""
+    from fastparquet import ParquetFile
+    from fastparquet.util import update_custom_metadata
+    pf = ParquetFile(root)
+    want = dict(kv_of(pf.fmd))
+    problems = []
+    for i, u in enumerate(us):
+        update_custom_metadata(pf, dict(u))
+        want = spec_update(want, u)
+        got = dict(kv_of(pf.fmd))
+        if got != want or len(kv_of(pf.fmd)) != len(got):
+            problems.append("after update %d on the handle its entries are %r, expected %r" % (i, _trim_list(kv_of(pf.fmd)), _trim(want)))
+            break
+        seen = {eb(k): (None if v is None else eb(v)) for k, v in pf.key_value_metadata.items()}
+        if seen != want:
+            problems.append("after update %d pf.key_value_metadata shows %r, expected %r" % (i, _trim(seen), _trim(want)))
+            break
+    if finish == "append":
+        pf.write_row_groups(df)
+    else:
+        pf._write_common_metadata()
+    pf2 = ParquetFile(root)
+    got = {k: v for k, v in kv_of(pf2.fmd) if k != b"pandas"}
+    if got != {k: v for k, v in want.items() if k != b"pandas"} or len(kv_of(pf2.fmd)) != len(dict(kv_of(pf2.fmd))):
+        problems.append("the footer written by %s holds %r, expected %r" % (finish, _trim_list(kv_of(pf2.fmd)), _trim(want)))
+    n_want = len(df) * (2 if finish == "append" else 1)
+    if len(pf2.to_pandas()) != n_want:
+        problems.append("%d rows read back, expected %d" % (len(pf2.to_pandas()), n_want))
+    return problems
 
 
 def enc_dict(d):
@@ -592,6 +738,28 @@ def replay(rep):
     if rep.get("kind") == "no-failing-input-found":
         print(json.dumps(rep, indent=1)[:6000])
         return 1
+    if rep["case"].get("stage") == "handle-history":
+        import shutil
+        import tempfile
+        c = rep["case"]
+        tmp = tempfile.mkdtemp(prefix="verif-C16-replay-", dir="/tmp")
+        try:
+            nrows = c["nrows"]
+            df = pd.DataFrame({"x": np.arange(nrows, dtype="int64"), "s": ["r%d" % i for i in range(nrows)]})
+            root = os.path.join(tmp, "ds")
+            write(root, df, file_scheme="hive", custom_metadata=dec_dict(c["initial"]) or None, row_group_offsets=[0, nrows // 2])
+            try:
+                problems = handle_history(root, df, [dec_dict(u) for u in c["updates"]], c["finish"])
+            except Exception as e:      # noqa
+                problems = ["raised %s: %s" % (type(e).__name__, e)]
+            print("updates on one handle: %r, then %s" % (c["shown"], c["finish"]))
+            for p in problems:
+                print("PROPERTY FAILS:", p)
+            if not problems:
+                print("ok")
+            return 1 if problems else 0
+        finally:
+            shutil.rmtree(tmp, ignore_errors=True)
     rd = rep["case"].get("replay_data")
     if rd is None and "old" in rep["case"] and "update" in rep["case"]:
         # a direct call of util.update_custom_metadata
@@ -599,14 +767,19 @@ def replay(rep):
         from fastparquet.util import update_custom_metadata
         c = rep["case"]
         old = [(bytes.fromhex(k), bytes.fromhex(v)) for k, v in c["old"]]
-        u = {bytes.fromhex(k): (None if v is None else bytes.fromhex(v)) for k, v in c["update"]}
+        us = [dec_dict(x) for x in c["updates_typed"]] if "updates_typed" in c else \
+            [{bytes.fromhex(k): (None if v is None else bytes.fromhex(v)) for k, v in c["update"]}]
+        u = us
         fmd = parquet_thrift.FileMetaData(key_value_metadata=[parquet_thrift.KeyValue(key=k, value=v) for k, v in old])
+        want = dict(old)
         try:
-            update_custom_metadata(fmd, u)
+            for uj in us:
+                update_custom_metadata(fmd, dict(uj))
+                want = spec_update(want, uj)
         except Exception as e:      # noqa
             print("update_custom_metadata(%r, %r) raised %s: %s" % (old, u, type(e).__name__, e))
             return 1
-        got, want = dict(kv_of(fmd)), spec_update(dict(old), u)
+        got = dict(kv_of(fmd))
         print("update_custom_metadata(%r, %r) -> %r; dict-update semantics: %r" % (old, u, kv_of(fmd), want))
         return 0 if (got == want and len(kv_of(fmd)) == len(got)) else 1
     if rd is None:
